@@ -133,6 +133,11 @@ func runCheck(repo, verif, prop, tier string, timeout, par int, keep bool) int {
 		return 1
 	}
 	pats := contractPackages(repo, cs, func(c *Contract) bool { return contractServes(c, prop) })
+	if prop == "C11" {
+		for _, m := range customModules {
+			pats = append(pats, "./x/"+m, "./x/"+m+"/types")
+		}
+	}
 	if len(pats) == 0 {
 		return broken("no contract serves this property")
 	}
@@ -162,6 +167,9 @@ func runCheck(repo, verif, prop, tier string, timeout, par int, keep bool) int {
 		}
 		r.Obls = mine
 		results = append(results, r)
+	}
+	if prop == "C11" {
+		results = append(results, w.structuralC11())
 	}
 	outDir := filepath.Join(verif, "out", prop+"-"+tier)
 	if os.Getenv("VERIF_EVIDENCE_DIR") != "" {
